@@ -216,6 +216,8 @@ type updState struct {
 	managers fieldpath.ManagedFields
 	conv     sameVersionConverter
 	rng      *gen.Rng
+	// prevLive: the live object before the step just executed (for the classification of finding D17)
+	prevLive *typed.TypedValue
 	// tainted: an earlier step of this history already hit finding D8 (pruning under an ignore
 	// configuration); the state is then inconsistent and later inconsistencies are consequences.
 	tainted bool
@@ -936,6 +938,7 @@ func stepUpdate(o *Out, c *typCtx, up *merge.Updater, ig ignoreCfg, st *updState
 		}, encManagedBytes(managers), false)
 		degradedNow = st.conv.degraded()
 		judgeUpdate(o, op, c, ig, st.live, tv, newObj, pre, managers, mgr, ver)
+		st.prevLive = st.live
 		st.live, st.managers = newObj, managers
 		judgeInvariantIg(o, op, c, tr, st, ig.kind, "", false)
 		judgeIgnored(o, op, ig, managers)
@@ -1020,6 +1023,7 @@ func stepApply(o *Out, c *typCtx, up *merge.Updater, ig ignoreCfg, st *updState,
 		if newObj != nil {
 			objs = vx.Value(newObj.AsValue())
 		}
+		st.prevLive = st.live
 		st.live, st.managers = result, managers
 		_, hadRecord := pre[mgr]
 		judgeInvariantIg(o, op, c, tr, st, ig.kind, mgr, hadRecord)
@@ -1567,7 +1571,15 @@ func judgeInvariantIg(o *Out, op string, c *typCtx, tr schema.TypeRef, st *updSt
 		vs.Set().Iterate(func(p fieldpath.Path) {
 			if !present(c.sc, tr, u, p) {
 				if igKind == "none" {
-					o.Fail("C06", "owned-field-present", m+" owns "+vx.Path(p), "owned-field-present "+op, op)
+					sig := "owned-field-present "
+					if st.prevLive != nil {
+						// finding D17: the node was there before this step and held an empty list somewhere: field
+						// sets do not show empty lists, so the add-back of dangling items took the node for emptied
+						if x, ok := nodeAt(c.sc, tr, st.prevLive.AsValue().Unstructured(), p); ok && holdsEmptyList(x) {
+							sig = "owned-field-present/D17-empty-list-invisible "
+						}
+					}
+					o.Fail("C06", "owned-field-present", m+" owns "+vx.Path(p), sig+op, op)
 				} else {
 					sig := "ownership-consistent-under-ignore "
 					if actorHadRecord || st.tainted {
@@ -1579,6 +1591,28 @@ func judgeInvariantIg(o *Out, op string, c *typCtx, tr schema.TypeRef, st *updSt
 			}
 		})
 	}
+}
+
+// holdsEmptyList: an empty list occurs in v (at any depth).
+func holdsEmptyList(v interface{}) bool {
+	switch t := v.(type) {
+	case []interface{}:
+		if len(t) == 0 {
+			return true
+		}
+		for _, x := range t {
+			if holdsEmptyList(x) {
+				return true
+			}
+		}
+	case map[string]interface{}:
+		for _, x := range t {
+			if holdsEmptyList(x) {
+				return true
+			}
+		}
+	}
+	return false
 }
 
 func judgeIgnored(o *Out, op string, ig ignoreCfg, managers fieldpath.ManagedFields) {
